@@ -288,6 +288,8 @@ pub enum ReadPlan {
     Json,
     /// text_reader() drained with the given buffer sizes (used by C02 with ASCII payloads)
     TextReader(Vec<usize>),
+    /// the json_utf8() helper
+    JsonUtf8,
 }
 
 pub fn read_size() -> BoxedStrategy<usize> {
@@ -315,7 +317,7 @@ pub fn read_plan() -> BoxedStrategy<ReadPlan> {
         1 => prop_oneof![Just(1usize), 2usize..100, Just(1000usize), Just(4096usize), Just(10_000usize)].prop_map(ReadPlan::WriteToShort),
         1 => Just(ReadPlan::TextUtf8),
         1 => read_sizes().prop_map(ReadPlan::Split),
-        1 => Just(ReadPlan::Json),
+        1 => prop_oneof![Just(ReadPlan::Json), Just(ReadPlan::JsonUtf8)],
     ]
     .boxed()
 }
